@@ -115,8 +115,7 @@ def register(R):
 
     s = R.spec(STN + "update_prices", arg_types={"new_prices": PR})
     s.opaque = True
-    s.assume_only("fold of station_state_optional_update over the items of the price map (arbitrary order): invariant needs "
-                  "completeness of the item enumeration w.r.t. the map; stated, not yet discharged")
+    s.transparent = {"nrel/hive/model/station/station_ops.py::station_state_updates"}
 
     def up_post(a, r):
         c = bound(StrT, "c_up")
@@ -125,6 +124,22 @@ def register(R):
                    forall([c], st2.state.get(c) == priced(a.self, a.new_prices, c)))
     s.ensures("only_named_plug_prices_change", up_post, P)
     s.no_raise(P)
+    # the fold inside station_state_updates (its one caller is update_prices): after i items, exactly the plug types among
+    # the first i items that the station has carry the item's price; everything else is as in the original station
+    SSU = "nrel/hive/model/station/station_ops.py::station_state_updates"
+    ACC_SU = TupleTy([OptTy(ExcT), OptTy(ST)])
+
+    def su_inv(acc, i, xs, env):
+        err, stn = acc
+        c = bound(StrT, "c_su")
+        orig = env.station
+        prices = env.it.coll
+        done = And(prices.has(c), items_kpos(xs, c) < i)
+        cs = orig.state.get(c)
+        return And(err.is_none(), stn.is_some(), stn.val() == orig._replace(state=stn.val().state),
+                   forall([c], stn.val().state.get(c) == Ite(And(cs.is_some(), done),
+                                                              some(cs.val()._replace(price_per_kwh=prices.get(c).val())), cs)))
+    R.loop(SSU, "reduce", 0, acc_type=ACC_SU, props=P, invariant=su_inv)
     usp = UPD + "charging_price_update.py::_update_station_prices"
     s = R.spec(usp, arg_types={"prices_update": PR}, ret=SIM)
     s.opaque = True
